@@ -935,7 +935,20 @@ pub fn run_tableau_case(case: &TableauCase) -> TableauRun {
             })
             .collect();
         let bounds = vec![(Some(Q::ZERO), None); w];
-        Some(oracle::lp_extreme(w, &cons, &bounds, &r0.c, false))
+        // a redundant cross-check: if the elimination overflows its i128 rationals (badly
+        // scaled costs) it is simply not available; exact reduced costs still decide
+        match std::panic::catch_unwind(std::panic::AssertUnwindSafe(|| {
+            oracle::lp_extreme(w, &cons, &bounds, &r0.c, false)
+        })) {
+            Ok(v) => Some(v),
+            Err(p) => {
+                if crate::solvers::panic_message(p.as_ref()).contains("Q overflow") {
+                    None
+                } else {
+                    std::panic::resume_unwind(p)
+                }
+            }
+        }
     };
 
     // A. every prefix of the uninterrupted solve
@@ -1242,6 +1255,12 @@ fn gen_canonical(rng: &mut Rng) -> TableauSource {
             _ => rng.range(1, 9) as f64,
         };
     }
+    // badly scaled objective: a penalty-sized cost next to unit costs (exact in f64)
+    if rng.chance(1, 6) {
+        let j = nonbasic[rng.usize(0, n - 1)];
+        let big = *rng.pick(&[100_000.0, 1_000_000.0, 2_000_000.0]);
+        c[j] = if rng.chance(1, 2) { big } else { -big };
+    }
     TableauSource::Canonical {
         c,
         a,
@@ -1352,7 +1371,7 @@ pub const TABLEAU_LIMITS: GenLimits = GenLimits {
 };
 
 /// Weights over `generate::ALL_FAMILIES` for continuous models fed to the tableau.
-pub const TABLEAU_FAMILY_WEIGHTS: [u64; 15] = [0, 0, 0, 0, 0, 30, 10, 8, 0, 0, 0, 18, 24, 5, 5];
+pub const TABLEAU_FAMILY_WEIGHTS: [u64; 16] = [0, 0, 0, 0, 0, 30, 10, 8, 0, 0, 0, 18, 24, 5, 5, 0];
 
 pub fn gen_case(rng: &mut Rng, index: u64) -> (String, TableauCase) {
     let classics = classic_cases();
@@ -1388,6 +1407,9 @@ pub fn gen_case(rng: &mut Rng, index: u64) -> (String, TableauCase) {
             if m.sense == Sense::Satisfy {
                 m.sense = Sense::Min;
             }
+            // (badly scaled objectives are generated for the canonical inputs only: the
+            // start tableau of a model is read back as small rationals, which a 1e6-sized
+            // coefficient divided by a pivot no longer is)
             // keep the standard form small: at most 9 columns is the documented size class
             (format!("model:{}", fam.name()), TableauSource::Model(m))
         }
